@@ -251,6 +251,16 @@ void omp_set_lock(void** l) { lock_acquire(l); } void omp_unset_lock(void** l) {
 
 /* ---- interposed library references (objcopy --redefine-syms=mc/sched.syms on the library objects) ------- */
 int mcs_fseek(FILE* f, long off, int wh) { if (g_on) { sp(SCH_K_IO); access_hook(f, 8, 1, PC()); } return fseek(f, off, wh); }
+/* stream state queries and the other positioning calls: steps on the shared FILE like fseek / fread */
+int mcs_feof(FILE* f) { if (g_on) { sp(SCH_K_IO); access_hook(f, 8, 0, PC()); } return feof(f); }
+int mcs_ferror(FILE* f) { if (g_on) { sp(SCH_K_IO); access_hook(f, 8, 0, PC()); } return ferror(f); }
+void mcs_clearerr(FILE* f) { if (g_on) { sp(SCH_K_IO); access_hook(f, 8, 1, PC()); } clearerr(f); }
+void mcs_rewind(FILE* f) { if (g_on) { sp(SCH_K_IO); access_hook(f, 8, 1, PC()); } rewind(f); }
+int mcs_fseeko(FILE* f, off_t off, int wh) { if (g_on) { sp(SCH_K_IO); access_hook(f, 8, 1, PC()); } return fseeko(f, off, wh); }
+off_t mcs_ftello(FILE* f) { if (g_on) { sp(SCH_K_IO); access_hook(f, 8, 0, PC()); } return ftello(f); }
+int mcs_fgetc(FILE* f) { if (g_on) { sp(SCH_K_IO); access_hook(f, 8, 1, PC()); } return fgetc(f); }
+int mcs_fgetpos(FILE* f, fpos_t* p) { if (g_on) { sp(SCH_K_IO); access_hook(f, 8, 0, PC()); } return fgetpos(f, p); }
+int mcs_fsetpos(FILE* f, const fpos_t* p) { if (g_on) { sp(SCH_K_IO); access_hook(f, 8, 1, PC()); } return fsetpos(f, p); }
 long mcs_ftell(FILE* f) { if (g_on) { sp(SCH_K_IO); access_hook(f, 8, 0, PC()); } return ftell(f); }
 size_t mcs_fread(void* p, size_t sz, size_t n, FILE* f) {
     if (g_on) { sp(SCH_K_IO); access_hook(f, 8, 1, PC()); }
